@@ -62,6 +62,10 @@ def _human_quote_replace_loop(ctx, rule, hq, rq, replaces, sparam, uparam):
                "delimiters survive on that path", where(hq, node), sample="built from the text after the replacement loop")
 
 
+def _is_translated(t, sparam, tables):
+    return t[0] == "call" and t[1][0] == "attr" and t[1][2] == "translate" and t[1][1] == sparam and t[2] and t[2][0] in tables
+
+
 def _human_quote_translate(ctx, rule, hq, rq, translates, sparam, uparam):
     """Idiom (B): one simultaneous pass `s.translate(T)` with T = str.maketrans({c: '%XX' for c in '%' + unsafe}) (possibly kept
     in a memo dict keyed by `unsafe`); text with non-printable characters is rebuilt character by character, each
@@ -75,23 +79,33 @@ def _human_quote_translate(ctx, rule, hq, rq, translates, sparam, uparam):
             memo[base] = e.value
 
     def table_def(t):
+        # the memoised table: G[unsafe] / G.get(unsafe) of a module-level dict whose entry for `unsafe` is stored in this function
         if t[0] == "sub" and t[1][0] == "global" and t[2] == uparam and t[1] in memo:
             return memo[t[1]]
+        if t[0] == "call" and t[1][0] == "attr" and t[1][2] == "get" and t[1][1][0] == "global" and t[2][:1] == (uparam,) and t[1][1] in memo:
+            return memo[t[1][1]]
         return t
 
     def table_ok(t):
+        """(True | False, why) for a table in a known spelling - str.maketrans(<dict comprehension>) or the comprehension itself
+        with code-point keys; an unknown spelling is exit 2, not a violation."""
         t = table_def(t)
-        if not (t[0] == "call" and t[1][0] == "attr" and t[1][2] == "maketrans" and len(t[2]) == 1):
-            return False, f"{show(t)[:50]} is not str.maketrans(<dict>)"
-        d = t[2][0]
+        by_maketrans = t[0] == "call" and t[1][0] == "attr" and t[1][2] == "maketrans" and len(t[2]) == 1
+        d = t[2][0] if by_maketrans else t
         if not (d[0] == "comp" and d[1] == "dict" and len(d[2]) == 1 and d[2][0][0] == "tuple" and len(d[2][0][1]) == 2 and len(d[3]) == 1):
-            return False, "the table is not a dict comprehension over one iterable"
+            raise AnalysisError(f"human_quote: the translation table {show(t)[:60]} is not a dict comprehension (optionally through "
+                                "str.maketrans, optionally memoised per `unsafe`) - unknown idiom")
         key, val = d[2][0][1]
         if flatten(d[3][0]) != [("lit", "%"), ("val", uparam)]:
             return False, "the table is not built from '%' + unsafe"
+        c = key
+        if key[0] == "call" and key[1] == ("builtin", "ord") and len(key[2]) == 1:
+            c = key[2][0]
+        elif not by_maketrans:
+            return False, "str.translate looks characters up by code point, but the table is keyed by the characters themselves: nothing is escaped"
         rep = flatten(val)
-        if not (key[0] == "elem" and len(rep) == 2 and rep[0] == ("lit", "%") and rep[1][0] == "fmt" and rep[1][2] == "02X"
-                and rep[1][1] == ("call", ("builtin", "ord"), (key,), ())):
+        if not (c[0] == "elem" and len(rep) == 2 and rep[0] == ("lit", "%") and rep[1][0] == "fmt" and rep[1][2] == "02X"
+                and rep[1][1] == ("call", ("builtin", "ord"), (c,), ())):
             return False, "an entry is not c -> '%' + two upper-case hex digits of c"
         return True, ""
     tables = {e.args[0] for e in translates}
@@ -107,6 +121,23 @@ def _human_quote_translate(ctx, rule, hq, rq, translates, sparam, uparam):
         problems = []
         if v[0] == "call" and v[1][0] == "attr" and v[1][2] == "translate" and v[1][1] == sparam and v[2] and v[2][0] in tables:
             pass        # the whole text through the table
+        elif v[0] == "call" and v[1] == ("attr", ("const", ""), "join") and len(v[2]) == 1 and v[2][0][0] == "comp" and len(v[2][0][3]) == 1 and \
+                _is_translated(v[2][0][3][0], sparam, tables):
+            # the text was translated first; the rebuild only has to leave its printable characters alone and escape the others
+            src = v[2][0][3][0]
+            for elt in v[2][0][2]:
+                ch = [t for t in walk(elt) if t[0] == "elem" and t[1] == src]
+                if not ch:
+                    problems.append(f"element {show(elt)[:40]} is not derived from a character of the translated text")
+                elif elt == ch[0]:
+                    pass
+                elif elt[0] == "call" and elt[1][0] in ("ext", "global") and elt[1][-1] == "quote" and elt[2] == (ch[0],):
+                    if truth(("call", ("attr", ch[0], "isprintable"), (), ()), st.facts) is True:
+                        problems.append("printable characters are escaped by quote()")
+                else:
+                    raise AnalysisError(f"human_quote: element {show(elt)[:40]} of the rebuilt text (unknown idiom)")
+        elif v == sparam:
+            problems.append("the text is returned as it came, without the translation")
         elif v[0] == "call" and v[1] == ("attr", ("const", ""), "join") and len(v[2]) == 1 and v[2][0][0] == "comp" and v[2][0][3] == (sparam,):
             for elt in v[2][0][2]:
                 ch = [t for t in walk(elt) if t[0] == "elem" and t[1] == sparam]
@@ -128,7 +159,8 @@ def _human_quote_translate(ctx, rule, hq, rq, translates, sparam, uparam):
                 else:
                     problems.append(f"element {show(elt)[:40]} is neither a table look-up nor quote(c)")
         else:
-            problems.append(f"{show(v)[:50]} is neither the text translated by the table nor a per-character rebuild through it")
+            raise AnalysisError(f"human_quote: return value {show(v)[:60]} is neither the text translated by the table nor a per-character "
+                                "rebuild through it (unknown idiom)")
         ctx.ob(rule, hq.qual, f"return {show(v)[:60]}", not problems,
                "a return path of human_quote does not escape '%' and the position delimiters: " + "; ".join(problems), where(hq, node),
                sample="every character goes through the escape table")
